@@ -258,8 +258,54 @@ fn convert_inputs() -> Vec<Vec<u8>> {
     out
 }
 
+// ---- dependency listing: every file the compilation reads is listed, under the first matching search dir
+fn deps_case(dialect: &str, shadow: bool) -> Option<Value> {
+    use chialisp::compiler::compiler::DefaultCompilerOpts;
+    use chialisp::compiler::comptypes::CompilerOpts;
+    use chialisp::compiler::preprocessor::gather_dependencies;
+    use std::rc::Rc;
+    let base = std::env::temp_dir().join(format!("verif_replay_deps_{}_{}", std::process::id(), dialect.len() + shadow as usize));
+    let d1 = base.join("first"); let d2 = base.join("second");
+    let _ = std::fs::remove_dir_all(&base);
+    std::fs::create_dir_all(&d1).ok()?; std::fs::create_dir_all(&d2).ok()?;
+    // inc.clib and blob.bin live in `second`; with shadow=true a different inc.clib also lives in `first` (must win)
+    std::fs::write(d2.join("inc.clib"), "((defconstant SECOND 2))").ok()?;
+    std::fs::write(d2.join("deeper.clib"), "((defconstant DEEP 3))").ok()?;
+    std::fs::write(d2.join("blob.bin"), [1u8, 2, 3]).ok()?;
+    std::fs::write(d2.join("data.hex"), "ff0180").ok()?;
+    if shadow { std::fs::write(d1.join("inc.clib"), "((defconstant FIRST 1))").ok()?; }
+    let src = format!("(mod (X) (include {}) (include inc.clib) (embed-file blob bin blob.bin) (embed-file hx hex data.hex) (+ X 1))", dialect);
+    let opts: Rc<dyn CompilerOpts> = Rc::new(DefaultCompilerOpts::new("main.clsp"));
+    let opts = opts.set_search_paths(&[d1.to_string_lossy().to_string(), d2.to_string_lossy().to_string()]);
+    let got = gather_dependencies(opts, "main.clsp", &src);
+    let res = match got {
+        Err(e) => Some(hit(json!({"source": src, "shadow": shadow}), "a dependency list".into(), format!("error {:?}", e.1), "gather_dependencies on a temp directory tree")),
+        Ok(list) => {
+            let names: Vec<String> = list.iter().map(|d| String::from_utf8_lossy(&d.name).to_string()).collect();
+            let mut want: Vec<String> = vec![];
+            if shadow { want.push(d1.join("inc.clib").to_string_lossy().to_string()); }
+            else { want.push(d2.join("inc.clib").to_string_lossy().to_string()); }
+            want.push(d2.join("blob.bin").to_string_lossy().to_string());
+            want.push(d2.join("data.hex").to_string_lossy().to_string());
+            let missing: Vec<&String> = want.iter().filter(|w| !names.contains(w)).collect();
+            let wrong_shadow = shadow && names.contains(&d2.join("inc.clib").to_string_lossy().to_string());
+            if !missing.is_empty() || wrong_shadow {
+                Some(hit(json!({"source": src, "shadow": shadow, "dirs": ["first", "second"]}), format!("listing contains {:?}", want), format!("listing is {:?}", names), "gather_dependencies on a temp directory tree (files read: inc.clib [deeper.clib] blob.bin data.hex)"))
+            } else { None }
+        }
+    };
+    let _ = std::fs::remove_dir_all(&base);
+    res
+}
+
 pub fn search(name: &str, _seed: u64) -> Value {
     match name {
+        "recurse_dependencies" | "gather_dependencies" | "read_new_file" | "deps" => {
+            for dialect in ["*standard-cl-21*", "*standard-cl-23*"] { for shadow in [false, true] {
+                if let Some(v) = deps_case(dialect, shadow) { return v; }
+            } }
+            nf("dependency listing contains every file read (include, nested include, embed-file bin/hex) and respects search-path order, in cl21 and cl23")
+        }
         "advance" | "srcloc" | "combine_src_location" | "ext" | "add_onto" | "len" | "ending" | "src_location_max" | "src_location_min" | "from_pair" => {
             for col in 1..70usize { for ch in 0u16..=255 { if let Some(v) = chk_advance(3, col, ch as u8) { return v; } } }
             let locs: Vec<(usize, usize, Option<(usize, usize)>)> = { let mut v = vec![]; for l in 1..3usize { for c in 1..4usize { v.push((l, c, None)); for ul in l..3usize { for uc in 1..5usize { if (ul, uc) > (l, c) { v.push((l, c, Some((ul, uc)))); } } } } } v };
